@@ -311,7 +311,11 @@ def c09_predefined(ctx):
     if ok:
         v = deref(ctx, pi, cs[0].args[1], cs[0])
         strs = [x for x in ast.walk(v) if isinstance(x, ast.Call) and unparse(x.func) == 'str' and len(x.args) == 1]
-        ok = bool(strs) and all("get('value'" in unparse(deref(ctx, pi, x.args[0], cs[0])) or "['value']" in unparse(deref(ctx, pi, x.args[0], cs[0])) for x in strs)
+        # an empty value (YAML null) stays empty: str() is applied only on the branch where the value is not None
+        none_kept = isinstance(v, ast.IfExp) and isinstance(v.test, ast.Compare) and len(v.test.ops) == 1 and isinstance(v.test.ops[0], (ast.Is, ast.IsNot)) \
+            and isinstance(v.test.comparators[0], ast.Constant) and v.test.comparators[0].value is None \
+            and not any(isinstance(x, ast.Call) and unparse(x.func) == 'str' for x in ast.walk(v.body if isinstance(v.test.ops[0], ast.Is) else v.orelse))
+        ok = bool(strs) and none_kept and all("get('value'" in unparse(deref(ctx, pi, x.args[0], cs[0])) or "['value']" in unparse(deref(ctx, pi, x.args[0], cs[0])) for x in strs)
     ctx.check(ok, 'register:config-value-as-text', pi.site(cs[0]) if cs else pi.site(), 'a configured symbol is defined with the text of its configured value',
               unparse(cs[0])[:120] if cs else 'no create_symbol call')
     from rules.shared import exact_lookup
